@@ -22,10 +22,13 @@ Definition bounds_eqb (a b : list (Q * Q)) : bool :=
 Definition cons_eqb (a b : list (row * Q)) : bool :=
   forall2b (fun x y => row_eqb (fst x) (fst y) && Qeq_bool (snd x) (snd y)) a b.
 
-(* the scripted acquisition function: C07's recorded quadratic of the point y snapped to a power-of-two grid, minus
-   (number of lies) * (lw . y) *)
-Definition afl_of (f : OC.afspec) (lw : row) (lies : list row) (x : row) : Q :=
-  Qred (OC.af_eval f x - inject_Z (Z.of_nat (length lies)) * dot lw (map (OC.snap1 (OC.af_snap f)) x)).
+(* the scripted acquisition function: C07's recorded quadratic of the point y snapped to a power-of-two grid (undefined, NaN,
+   on the half-spaces af_und), minus (number of lies) * (lw . y) *)
+Definition afl_of (f : OC.afspec) (lw : row) (lies : list row) (x : row) : option Q :=
+  match OC.af_eval f x with
+  | Some v => Some (Qred (v - inject_Z (Z.of_nat (length lies)) * dot lw (map (OC.snap1 (OC.af_snap f)) x)))
+  | None => None            (* undefined (NaN) on the half-spaces af_und f, whatever the lies *)
+  end.
 
 (* first-order form of the draws of one call of vectorized_acquisition_optimization: quasi-random generation = the first k
    points of the cyclically repeated pool; the restrictions of the generated cases never draw (unconstrained domains) *)
@@ -35,8 +38,15 @@ Definition to_vorc (l : vorc_l) : vorc :=
   {| v_gen_es := OC.cyc (l_pool l); v_gen_gd := OC.cyc (l_pool l); v_us_es := fun _ => []; v_us_gd := fun _ => [];
      v_ds := l_ds l; v_zs := l_zs l; v_us_near := []; v_fallback := l_fallback l; v_choice := l_choice l; v_ups := l_ups l |}.
 
-Definition sres_rows {A} (eqb : A -> A -> bool) (r : sres A) (out : option A) : bool :=
-  match r, out with SOk a, Some b => eqb a b | SErr _, None => true | _, _ => false end.
+(* what the implementation raised: the assertion on the number of gradient starts / a shape assertion, or ValueError
+   (numpy.nanargmax on a batch without any defined value, numpy.argmax of an empty array) *)
+Inductive eobs := ENone | EAssert | EValue.
+Definition err_class (e : serr) : eobs :=
+  match e with SAssert => EAssert | SValue => EValue | SOpt OP.ValueError => EValue | _ => ENone end.
+Definition eobs_eqb (a b : eobs) : bool :=
+  match a, b with EAssert, EAssert | EValue, EValue => true | _, _ => false end.
+Definition sres_rows {A} (eqb : A -> A -> bool) (r : sres A) (out : option A) (e : eobs) : bool :=
+  match r, out with SOk a, Some b => eqb a b | SErr x, None => eobs_eqb (err_class x) e | _, _ => false end.
 (* the specification on the implementation's own output: C07's domain test on the derived representation *)
 Definition spec_pt (tol : Q) (d : domain) (fixed : list (nat * Q)) (p : row) : bool :=
   OP.in_dom_b tol (oh_lb d) (oh_ub d) fixed (oh_cons d) p.
@@ -49,13 +59,13 @@ Inductive ccase :=
 | KSample (d : domain) (c : row) (n : nat) (o : samp_orc) (out : option (list row))
 (* vectorized_acquisition_optimization on DE / Adam optimisers built by the harness *)
 | KVec (d : domain) (fixed : list (nat * Q)) (f : OC.afspec) (best_obs : row) (P : vpar) (pretest : list row) (l : vorc_l)
-       (out : option row)
+       (out : option row) (e : eobs)
 (* constant_liar_acquisition_function_optimization *)
 | KCl (d : domain) (fixed : list (nat * Q)) (f : OC.afspec) (lw : row) (best_obs : row) (P : vpar) (pretest : list row) (n : nat)
-      (ls : list vorc_l) (out : option (list row))
+      (ls : list vorc_l) (out : option (list row)) (e : eobs)
 (* qei_acquisition_function_optimization, one point *)
 | KQei (d : domain) (f : OC.afspec) (Pde : OP.de_par) (maxiter : nat) (pool : list row)
-       (ds : list (list (nat * nat * nat) * list (list Q))) (out : option (list row))
+       (ds : list (list (nat * nat * nat) * list (list Q))) (out : option (list row)) (e : eobs)
 (* runs on constrained domains (the constrained restriction divides: not exact in doubles): the specification only *)
 | KSpec (d : domain) (fixed : list (nat * Q)) (pts : list row)
 (* CategoricalDomain.generate_quasi_random_points_in_domain(n) on a constrained domain: one-hot sampler + decode *)
@@ -75,14 +85,14 @@ Definition ccheck (k : ccase) : bool :=
   | KSample d c n o out =>
       opt_rows_eqb (oh_sample d c n o) out &&
       match out with Some rows => forallb (spec_pt 0 d []) rows && Nat.eqb (length rows) n | None => true end
-  | KVec d fixed f best_obs P pretest l out =>
-      sres_rows row_eqb (vec_acq_opt d fixed [] (OC.af_eval f) best_obs P pretest (to_vorc l)) out &&
+  | KVec d fixed f best_obs P pretest l out e =>
+      sres_rows row_eqb (vec_acq_opt d fixed [] (OC.af_eval f) best_obs P pretest (to_vorc l)) out e &&
       match out with Some p => spec_pt 0 d fixed p | None => true end
-  | KCl d fixed f lw best_obs P pretest n ls out =>
-      sres_rows rows_eqb (cl_stage d fixed [] (afl_of f lw) (fun _ => best_obs) P pretest n (map to_vorc ls)) out &&
+  | KCl d fixed f lw best_obs P pretest n ls out e =>
+      sres_rows rows_eqb (cl_stage d fixed [] (afl_of f lw) (fun _ => best_obs) P pretest n (map to_vorc ls)) out e &&
       match out with Some ps => forallb (spec_pt 0 d fixed) ps && Nat.eqb (length ps) n | None => true end
-  | KQei d f Pde maxiter pool ds out =>
-      sres_rows rows_eqb (qei_stage d [] [] (OC.af_eval f) Pde maxiter (OC.cyc pool) (fun _ => []) ds) out &&
+  | KQei d f Pde maxiter pool ds out e =>
+      sres_rows rows_eqb (qei_stage d [] [] (OC.af_eval f) Pde maxiter (OC.cyc pool) (fun _ => []) ds) out e &&
       match out with Some ps => forallb (spec_pt 0 d []) ps | None => true end
   | KSpec d fixed pts => forallb (spec_pt tol_cons d fixed) pts
   | KQuasi d c n so dec out =>
